@@ -1,7 +1,7 @@
 (* C18 - measurement primitives compute what they name, reset cleanly, report changes. *)
 From Coq Require Import ZArith List Bool Permutation Reals.
 From Flocq Require Import Core BinarySingleNaN.
-From GCL Require Import Base.F64 Base.F64Facts Model.Measure Proofs.MeasureProofs.
+From GCL Require Import Base.F64 Base.F64Facts Model.Measure Proofs.MeasureProofs Proofs.HullPow2.
 Import ListNotations.
 
 (* minimum of the samples since reset (positive finite samples, any number of them) *)
@@ -58,3 +58,27 @@ Print Assumptions C18_reset_fresh_percentile.
 Example C18_window_example :
   win_of [WOk 30 2; WDrop 9; WOk 10 5] = {| wmin := 10; wmaxinf := 9; wcount := 2; wsum := 40; wdrop := true |}.
 Proof. reflexivity. Qed.
+
+(* The averages stay inside the hull of their samples, in binary64 and without drift: for every sample sequence (any length) of finite values in
+   [0, 2^k] the exponential average - warm-up mean and exponential phase alike - stays a finite value in [0, 2^k] (window >= 1).
+   The convex combination round(round(round(1 - f) x value) + round(f x sample)) cannot leave [0, 2^k]: scaling by 2^k is exact and the weights
+   exceed 1 by at most 2^-54, a quarter of the spacing above 2^k.  (With warm-up 0 the first value is NOT between the samples: known finding F20.) *)
+Theorem C18_expavg_hull k xs m : (0 <= k <= 900)%Z -> AvgInv k m -> Forall (in_hull k) xs -> AvgInv k (fold_left ea_add xs m).
+Proof. exact (expavg_hull k xs m). Qed.
+Print Assumptions C18_expavg_hull.
+
+Example C18_expavg_hull_fresh k w wu : (0 <= k)%Z -> (1 <= w < 2^52)%Z -> (wu < 2^52)%Z -> AvgInv k (ea_new w wu).
+Proof. exact (ea_new_inv k w wu). Qed.
+
+(* the simple exponential moving average likewise (smoothing alpha in [0,1], warm-up weights 1/n) *)
+Theorem C18_moving_average_hull k xs m : (0 <= k <= 999)%Z -> SInv k m -> Forall (in_hull k) xs ->
+  SInv k (fold_left (fun m x => fst (sema_add m x)) xs m).
+Proof. exact (sema_hull k xs m). Qed.
+Print Assumptions C18_moving_average_hull.
+
+(* the moving variance is never negative (and stays finite): for samples in [0, 2^k] it lies in [0, 2^2k] after any sample sequence *)
+Theorem C18_variance_nonneg k xs m : (0 <= k <= 499)%Z -> VarInv k m -> Forall (in_hull k) xs ->
+  let m' := fold_left (fun m x => fst (smv_add m x)) xs m in
+  VarInv k m' /\ fin (smv_get m') = true /\ (0 <= R (smv_get m') <= bpow radix2 (2 * k))%R.
+Proof. exact (variance_nonneg k xs m). Qed.
+Print Assumptions C18_variance_nonneg.
